@@ -25,18 +25,19 @@ ASSUMPTIONS = BASE_ASSUMPTIONS + [
     'under the name A or remove on A); otherwise the alphabet is feasible in every reachable order (100 mL stock, <= 1 mL amounts)',
     'after a successful bake: declaring and step-adding calls must raise RuntimeError; start_stage / end_stage / bake must raise']
 SYMS = ['usesA', 'usesB', 'usesP', 'usesA2', 'usesL_BP', 'usesL_dup', 'usesT_A', 'ccN', 'ccA', 'csM', 'csA', 'csSolvA', 'csSolvX', 'csfA', 'csfX', 'tAB', 'tAP', 'tXA',
-        'tAX', 'rmA', 'rmX', 'dilA', 'dilX', 'fillB', 'fillX', 'st1', 'st2', 'stall', 'en1', 'en2', 'bake']
+        'tAX', 'rmA', 'rmX', 'dilA', 'dilX', 'fillB', 'fillX', 'st1', 'st2', 'stall', 'en1', 'en2', 'bake',
+        'enAll', 'dilA_B', 'tKindP', 'tBig']
 DECLARING = {'usesA': 'A', 'usesB': 'B', 'usesP': 'P', 'usesA2': 'A', 'ccN': 'N', 'ccA': 'A', 'csM': 'M', 'csA': 'A', 'csSolvA': 'SA',
              'csSolvX': 'SX', 'csfA': 'FA', 'csfX': 'FX'}
 NEED = {'tAB': ['A', 'B'], 'tAP': ['A', 'P'], 'tXA': ['X', 'A'], 'tAX': ['A', 'X'], 'rmA': ['A'], 'rmX': ['X'], 'dilA': ['A'],
-        'dilX': ['X'], 'fillB': ['B'], 'fillX': ['X']}
+        'dilX': ['X'], 'fillB': ['B'], 'fillX': ['X'], 'dilA_B': ['A'], 'tBig': ['A', 'B']}
 
 
 def required_buckets(tier):
-    req = [f'C16/sym/{s}/ok' for s in SYMS if s not in ('usesA2', 'usesL_dup', 'csSolvX', 'csfX', 'tXA', 'tAX', 'rmX', 'dilX', 'fillX', 'stall')]
+    req = [f'C16/sym/{s}/ok' for s in SYMS if s not in ('usesA2', 'usesL_dup', 'csSolvX', 'csfX', 'tXA', 'tAX', 'rmX', 'dilX', 'fillX', 'stall', 'enAll', 'tKindP')]
     req += [f'C16/sym/{s}/refused' for s in SYMS if s not in ()]
     req += [f'C16/after_bake/{s}' for s in SYMS]
-    req += ['C16/naming/plain', 'C16/naming/like_substances']
+    req += ['C16/naming/plain', 'C16/naming/like_substances', 'C16/bake_refused_for_an_infeasible_step', 'C16/second_bake_after_refused_bake']
     return req
 
 
@@ -73,6 +74,7 @@ class Model:
         self.locked = False
         self.n = 0
         self.maybe_infeasible = False
+        self.infeasible = False       # a step that can never be carried out (500 mL out of a 100 mL stock) has been declared
         self.diluted = False
         self.filled = False
         self.partial = False
@@ -87,10 +89,14 @@ class Model:
                 return 'raise'
             if self.decl - self.used:
                 return 'raise'
+            if self.infeasible:
+                return 'raise'         # refused by the step itself; the recipe stays as it was and may be baked (= refused) again
             return 'bake?' if self.maybe_infeasible else 'ok'
-        if sym in ('st1', 'st2', 'stall', 'en1', 'en2'):
+        if sym in ('st1', 'st2', 'stall', 'en1', 'en2', 'enAll'):
             if self.locked:
                 return 'raise'
+            if sym == 'enAll':
+                return 'raise'          # 'all' is never an open stage (start_stage refuses the name)
             name = {'st1': 's1', 'st2': 's2', 'stall': 'all', 'en1': 's1', 'en2': 's2'}[sym]
             if sym.startswith('st'):
                 if name in self.stages or self.open:
@@ -108,9 +114,7 @@ class Model:
             names = {'usesL_BP': ['B', 'P'], 'usesL_dup': ['D', 'D'], 'usesT_A': ['A']}[sym]
             clash = [n for n in names if n in self.decl] or (['D'] if sym == 'usesL_dup' else [])
             if clash:
-                # refused; how many of the earlier elements were already added is not specified
-                self.partial = any(n not in self.decl for n in names)
-                return 'raise'
+                return 'raise'          # refused: nothing is declared (not even the elements before the clash)
             self.decl.update(names)
             return 'ok'
         if sym in DECLARING:
@@ -132,15 +136,24 @@ class Model:
                 if sym == 'csfA' and self.diluted:
                     self.maybe_infeasible = True      # 0.1 M is no longer reachable from the diluted stock
             return 'ok'
+        if sym == 'tKindP':
+            return 'raise'              # a Container that merely carries the name of the (declared or undeclared) plate P
         need = NEED[sym]
         if any(n not in self.decl for n in need):
             return 'raise'
+        if sym == 'dilA_B' and 'B' in self.decl:
+            return 'raise'              # the new name is in use
         self.used |= set(need)
         self.n += 1
         if sym == 'rmA':
             self.maybe_infeasible = True
-        if sym == 'dilA':
+        if sym in ('dilA', 'dilA_B'):
             self.diluted = True
+        if sym == 'tBig':
+            if self.diluted:
+                self.maybe_infeasible = True      # diluted to 0.01 M the stock holds litres
+            else:
+                self.infeasible = True
         if sym == 'fillB':
             if self.filled:
                 self.maybe_infeasible = True      # B may hold more than 50 mL by now (fill, transfer in, fill again)
@@ -217,6 +230,14 @@ def do(r, o, sym, water, salt):
         r.dilute(A, salt, '0.01 M', water)
     elif sym == 'dilX':
         r.dilute(X, salt, '0.01 M', water)
+    elif sym == 'dilA_B':
+        r.dilute(A, salt, '0.01 M', water, B.name)          # (the name of B, declared or not)
+    elif sym == 'tKindP':
+        r.transfer(type(A)(P.name, initial_contents=[(water, '5 mL')]), A, '1 uL')
+    elif sym == 'tBig':
+        r.transfer(A, B, '500 mL')
+    elif sym == 'enAll':
+        r.end_stage(fresh_str('all'))
     elif sym == 'fillB':
         r.fill_to(B, water, '50 mL')
     elif sym == 'fillX':
@@ -322,12 +343,16 @@ def run_sequence(pp, water, salt, seq, M, stats, states, transitions, check_batt
             if len(r.steps) != n0:
                 M.violate(['C16'], 'LIFE', f'C16:refused_call_added_a_step:{sym}', {'sequence': list(seq[:i + 1])})
                 return
-            if exp == 'bake?':
-                return            # a physically infeasible program: stop here (not modelled further)
-            if m.partial:
-                return            # uses(iterable) refused part-way: which elements were already declared is unspecified
-            if sym == 'bake' and not was_locked and m.open is not None:
-                return            # whether a refused bake has already closed the open stage is not specified
+            if sym == 'bake' and not was_locked and (exp == 'bake?' or m.infeasible) and not (m.decl - m.used):
+                # a step turned out to be infeasible: the recipe is as it was (not locked, the open stage still open, its
+                # declared objects untouched) - the model simply goes on, and a second bake is refused again
+                stats['bake_refused_for_an_infeasible_step'] += 1
+                if r.locked or (m.open is not None and r.current_stage == 'all') or sorted(r.results) != sorted(names.get(k_, k_) for k_ in m.decl):
+                    M.violate(['C16', 'C04'], 'LIFE', 'C16:refused_bake_changed_the_recipe',
+                              {'sequence': list(seq[:i + 1]), 'locked': r.locked, 'open_stage': r.current_stage, 'model_open': m.open})
+                    return
+                if i > 0 and 'bake' in seq[:i] and not was_locked:
+                    stats['second_bake_after_refused_bake'] += 1
             if was_locked and check_battery and res is not None:
                 stats['LIFE.battery'] += 1
                 now = battery(r, res, o, water, salt)
@@ -414,7 +439,7 @@ def enumerate_(rng, case, idx):
             if len(M.violations) > 200:
                 break
     for k, v in stats.items():
-        if k.startswith('sym/') or k.startswith('after_bake/') or k.startswith('naming/'):
+        if k.startswith('sym/') or k.startswith('after_bake/') or k.startswith('naming/') or k.startswith('bake_refused') or k.startswith('second_bake'):
             M.bucket('C16/' + k, v)
         else:
             M.count(k, v)
@@ -441,7 +466,7 @@ def random_(rng, case, idx):
                      names=LIKE_SUBSTANCES if i % 2 else PLAIN)
         M.note_nontrivial('C16', seq)
     for k, v in stats.items():
-        if k.startswith('sym/') or k.startswith('after_bake/') or k.startswith('naming/'):
+        if k.startswith('sym/') or k.startswith('after_bake/') or k.startswith('naming/') or k.startswith('bake_refused') or k.startswith('second_bake'):
             M.bucket('C16/' + k, v)
         else:
             M.count(k, v)
